@@ -38,6 +38,14 @@ def gen_names(chk):
                 if pos <= 1 or not quick:
                     for pre in (S("C:\\"), S("\\\\srv\\"), S("d\\")): names.append((0, pre + core))
                     names.append((1, [0x2f] + core)); names.append((1, S("d/") + core))
+    # names that mean something elsewhere (RFC 8089 host "localhost", loop-back addresses, dot segments, drive-like and scheme-like
+    # words) in every position where a conversion could be tempted to treat them specially: UNC server, first / later segment
+    WORDS = ["localhost", "LOCALHOST", "Localhost", "localhost2", "127.0.0.1", "::1", "[::1]", ".", "..", "...", "c:", "C|", "c$", "file:", "file", "http:", "~", "%2F", "%5C", "%00", "con", "nul", "share", "a b"]
+    for w in WORDS:
+        for nm in ("\\\\" + w, "\\\\" + w + "\\", "\\\\" + w + "\\share\\x", "\\\\srv\\" + w + "\\x", w, w + "\\x", "x\\" + w, "C:\\" + w, "C:\\" + w + "\\x", "C:\\x\\" + w):
+            names.append((0, S(nm)))
+        for nm in ("/" + w, "/" + w + "/x", w, w + "/x", "x/" + w, "//" + w + "/x"):
+            names.append((1, S(nm)))
     def seg(L): return [rng.choice(ALPHA[:2] + ALPHA[5:] + [rng.randint(1, 255)]) for _ in range(L)]
     def clean(x, bad): return [c for c in x if c not in bad]
     for _ in range(1500 if quick else 60000):
@@ -72,6 +80,10 @@ def gen_uris(chk):
                     out.append((pos % 2, pre + [0x61] * pos + [0x25, hx[v >> 4], hx[v & 15]] + [0x62]))
                     out.append(((pos + 1) % 2, pre + [0x61] * pos + [0x25, hx[v >> 4], hx[v & 15]]))
                 if v: out.append((0, pre + [0x61] * pos + [v, 0x62])); out.append((1, pre + [0x61] * pos + [v, 0x62]))
+    for w in ("localhost", "LOCALHOST", "localhost.", "127.0.0.1", "[::1]", ".", "..", "", "c:", "C|", "srv"):
+        for rest in ("", "/", "/x", "/c:/x", "/C|/x", "/share/x", "//x", "/%2Fx"):
+            for pre in ("file://", "file:", "file:/", "FILE://", "//"):
+                out.append((0, S(pre + w + rest))); out.append((1, S(pre + w + rest)))
     for _ in range(1000 if quick else 50000):
         L = rng.choice([4, 9, 30, 120])
         t = []
